@@ -155,6 +155,7 @@ def chain_events(ctx, lc, tid, start, nmoves, seed):
     if rng.random() < 0.5 or len(start) < 16:
         common.call(obj.deltaMax)
     ev = []
+    ref_dmax = None            # delta-max of the chain's composition, from a fresh object (computed when first needed)
     for step in range(nmoves):
         move = rng.choice(MOVES + ["full_shuffle", "swapRandChargeRes", "swapRes"])
         N = len(obj.seq)
@@ -193,8 +194,11 @@ def chain_events(ctx, lc, tid, start, nmoves, seed):
         if child.dmax != -1 and (step == 0 or step == nmoves - 1):
             e["dmax"] = "set"
             e["dmaxfx"] = common.fx(child.dmax)
-        elif child.dmax != -1 and child.dmax != obj.dmax:
-            ctx.violation("carried-deltamax-wrong", {"move": move, "seq": pseq}, expected=obj.dmax, actual=child.dmax)
+        elif child.dmax != -1:
+            if ref_dmax is None:
+                ref_dmax = common.call(lc.Sequence(start).deltaMax)
+            if ref_dmax[0] != "ok" or not common.close(child.dmax, __import__("fractions").Fraction(float(ref_dmax[1]))):
+                ctx.violation("carried-deltamax-wrong", {"move": move, "seq": pseq, "child": child.seq}, expected=ref_dmax, actual=child.dmax)
         ev.append(e)
         obj = child
         rec.budget = 4000
